@@ -117,8 +117,7 @@ class Executor:
         self.loose = loose
         self.written = {}
         self.bb = zygote.import_blackbird()
-        pk = zygote.pkg_dir()
-        self.trace_files = [os.path.join(pk, f) for f in zygote.HAND_WRITTEN]
+        self.trace_files = zygote.hand_written_files()
 
     # -- observation -------------------------------------------------------
     def render_obj(self, oid):
